@@ -74,6 +74,9 @@ theorem line_files_preserved (strs : Strs) (st st' : CSt) (f : FileEntry)
     rw [hn] at h
     simp only [CRes.bind_ok] at h
     obtain ⟨hname, hform⟩ := convertString_ok _ _ _ _ _ _ hn
+    by_cases hemp : name.form = SForm.string ∧ name.val.isEmpty = true ∧ st.prog.enc.version ≤ 4
+    · rw [if_pos hemp] at h; cases h
+    rw [if_neg hemp] at h
     by_cases hdir : f.dirIndex ≥ st.dirs.length
     · rw [if_pos hdir] at h; cases h
     · rw [if_neg hdir] at h
@@ -128,7 +131,9 @@ row conversion succeeds, the writer row has the reader row's (sequence-relative)
 op_index, line (`None` ↦ 0), column (`LeftEdge` ↦ 0), discriminator, is_stmt, basic_block,
 prologue_end, epilogue_begin and isa unchanged, and its file is the image of the reader's file
 register under the index mapping; the file register was a legal index for the version (not 0 for
-versions ≤ 4). Otherwise the conversion fails with `InvalidFileIndex` — never anything else. -/
+versions ≤ 4) and the relative address is a multiple of the minimum instruction length. Otherwise the
+conversion fails with `UnsupportedLineInstruction` (unaligned address, `address_offset()`, checked
+first) or `InvalidFileIndex` — never anything else. -/
 theorem line_row_registers (st : CSt) :
     (∃ w, convertRow st = .ok w ∧
       w.addressOffset = st.fromRow.address ∧ w.opIndex = st.fromRow.opIndex ∧ w.line = st.fromRow.line ∧
@@ -136,22 +141,30 @@ theorem line_row_registers (st : CSt) :
       w.isStmt = st.fromRow.isStmt ∧ w.basicBlock = st.fromRow.basicBlock ∧
       w.prologueEnd = st.fromRow.prologueEnd ∧ w.epilogueBegin = st.fromRow.epilogueBegin ∧
       w.isa = st.fromRow.isa ∧ st.files[st.fromRow.file]? = some w.file ∧
-      ¬ (st.fromRow.file = 0 ∧ st.prog.enc.version ≤ 4)) ∨
+      ¬ (st.fromRow.file = 0 ∧ st.prog.enc.version ≤ 4) ∧
+      st.fromRow.address % st.prog.enc.minInstLen = 0) ∨
+    (convertRow st = .err .unsupportedLineInstruction ∧
+      st.fromRow.address % st.prog.enc.minInstLen ≠ 0) ∨
     (convertRow st = .err .invalidFileIndex ∧
       (st.files.length ≤ st.fromRow.file ∨ (st.fromRow.file = 0 ∧ st.prog.enc.version ≤ 4))) := by
   unfold convertRow
+  by_cases h0 : st.fromRow.address % st.prog.enc.minInstLen ≠ 0
+  · right; left
+    rw [if_pos h0]
+    exact ⟨rfl, h0⟩
+  rw [if_neg h0]
   by_cases h1 : st.fromRow.file ≥ st.files.length
-  · right
+  · right; right
     rw [if_pos h1]
     exact ⟨rfl, Or.inl h1⟩
   · by_cases h2 : st.fromRow.file = 0 ∧ st.prog.enc.version ≤ 4
-    · right
+    · right; right
       rw [if_neg h1, if_pos h2]
       exact ⟨rfl, Or.inr h2⟩
     · left
       rw [if_neg h1, if_neg h2]
       have hlt : st.fromRow.file < st.files.length := by omega
-      refine ⟨_, rfl, rfl, rfl, rfl, rfl, rfl, rfl, rfl, rfl, rfl, rfl, ?_, h2⟩
+      refine ⟨_, rfl, rfl, rfl, rfl, rfl, rfl, rfl, rfl, rfl, rfl, rfl, ?_, h2, by omega⟩
       simp [List.getD, List.getElem?_eq_getElem hlt]
 
 /-- **`DW_AT_decl_file`-style indices** (`convert_file_index`): index 0 of a version ≤ 4 unit is
@@ -173,7 +186,16 @@ theorem line_file_index (version : Nat) (files : List Nat) (index : Nat) :
 
 /-- the loop of `read_row` always consumes the instructions it looks at: when it hands a row to
 the caller, what remains is strictly shorter (so the fuel of `convLoop`, the instruction count + 1,
-is enough and `ConvertLineProgram::convert` terminates) -/
+is enough and `ConvertLineProgram::convert` terminates).
+
+Totality after the repairs of C12-L2/L3: the conversion Model returns a value or a `ConvertError`
+on every input, except for panics that all come from the *writer*: the unchecked arithmetic of
+`generate_row` / `op_advance` (line numbers ≥ 2^63, finding C13-3; operation advances ≥ 2^64,
+C13-4; an operation pointer that goes backwards in a VLIW program, C12-L5 — all debug builds only)
+and the `assert!`s of `add_directory` / `add_file` on strings a parsed header cannot contain (an
+empty include directory of a version ≤ 4 table, a NUL inside a name). `line_rows_preserved`
+(`Props/C12LineRows.lean`) shows that for tombstone-free non-VLIW programs with line numbers below
+2^63 no step of the row loop panics. -/
 theorem line_read_row_consumes (strs : Strs) (h : Params) : ∀ (is : List Instr) (tomb : Bool)
     (address : Option Nat) (st st' : CSt) (ev : RowEv) (rest : List Instr),
     readRowLoop strs h tomb address st is = .ok (some ev, st', rest) → rest.length < is.length := by
@@ -206,8 +228,10 @@ theorem line_read_row_consumes (strs : Strs) (h : Params) : ∀ (is : List Instr
           split at hr
           · split at hr <;> exact fin hr
           · split at hr
-            · simp only [CRes.ok.injEq, Prod.mk.injEq] at hr
-              obtain ⟨_, _, rfl⟩ := hr; simp
+            · split at hr
+              · cases hr
+              · simp only [CRes.ok.injEq, Prod.mk.injEq] at hr
+                obtain ⟨_, _, rfl⟩ := hr; simp
             · split at hr
               · simp only [CRes.ok.injEq, Prod.mk.injEq] at hr
                 obtain ⟨_, _, rfl⟩ := hr; simp
@@ -259,22 +283,38 @@ theorem line_files_duplicate_counterexample :
     lineTable (convertProgram .debug lineNoStrs lineHdDup lineNoTabs [] none) =
       some [([0x61], 1, 9), ([0x62], 0, 0)] := by decide
 
-/-- **Finding C12-L2, pinned**: `fixed_advance_pc 3` with min_inst_len 4: the second row is at
-0x1003 in the source; a debug build panics, a release build writes `copy; copy` — both rows at
-0x1000. -/
-theorem line_rows_unaligned_counterexample :
-    lineIsPanic (convertProgram .debug lineNoStrs lineHdDup lineNoTabs
-      [.setAddress 0x1000, .copy, .fixedAddPc 3, .copy, .advancePc 2, .endSequence] none) = true ∧
-    lineInstrs (convertProgram .release lineNoStrs lineHdDup lineNoTabs
-      [.setAddress 0x1000, .copy, .fixedAddPc 3, .copy, .advancePc 2, .endSequence] none) =
-      some [.setAddress (some 0x1000), .copy, .copy, .advancePc 2, .endSequence] := by decide
+def lineErr : CRes CSt → Option CErr
+  | .err e => some e
+  | _ => none
 
-/-- **Finding C12-L3, pinned**: `DW_LNE_define_file` with an empty name (version ≤ 4) panics in
-`add_file` in both build modes instead of failing with an error. -/
-theorem line_define_file_empty_counterexample (m : Mode) :
-    lineIsPanic (convertProgram m lineNoStrs lineHdDup lineNoTabs
-      [.defineFile (lineFe [] 0 0), .copy, .endSequence] none) = true := by
+/-- **Regression for the repaired finding C12-L2** (`a88ed16`): `fixed_advance_pc 3` with
+min_inst_len 4 puts the second row at 0x1003, which the writer cannot express: the conversion now
+fails with `UnsupportedLineInstruction` in both build modes (it used to panic in debug builds and to
+move the row to 0x1000 in release builds). -/
+theorem line_rows_unaligned_regression (m : Mode) :
+    lineErr (convertProgram m lineNoStrs lineHdDup lineNoTabs
+      [.setAddress 0x1000, .copy, .fixedAddPc 3, .copy, .advancePc 2, .endSequence] none) =
+      some .unsupportedLineInstruction := by
   cases m <;> decide
+
+/-- **Regression for the repaired finding C12-L3** (`75911da`): `DW_LNE_define_file` with an empty
+name (version ≤ 4) now fails with `UnsupportedLineInstruction` instead of panicking in `add_file`. -/
+theorem line_define_file_empty_regression (m : Mode) :
+    lineErr (convertProgram m lineNoStrs lineHdDup lineNoTabs
+      [.defineFile (lineFe [] 0 0), .copy, .endSequence] none) = some .unsupportedLineInstruction := by
+  cases m <;> decide
+
+/-- **Finding C12-L5, pinned**: max_ops 2; `fixed_advance_pc 0` at op_index 1 puts the next row's
+operation pointer behind the previous row's: `op_advance` underflows — a debug build panics; a
+release build wraps (`advance_pc 2^64 − 1`), which the reader's wrapping arithmetic undoes. -/
+theorem line_op_pointer_backwards_counterexample :
+    lineIsPanic (convertProgram .debug lineNoStrs lineHdDup lineNoTabs
+      [.setAddress 0x1000, .copy, .advancePc 1, .copy, .fixedAddPc 0, .copy, .advancePc 4, .endSequence] none)
+      = true ∧
+    lineInstrs (convertProgram .release lineNoStrs lineHdDup lineNoTabs
+      [.setAddress 0x1000, .copy, .advancePc 1, .copy, .fixedAddPc 0, .copy, .advancePc 4, .endSequence] none) =
+      some [.setAddress (some 0x1000), .copy, .special 32, .advancePc (2 ^ 64 - 1), .copy, .advancePc 4,
+            .endSequence] := by decide
 
 /-- **Finding C12-L4, pinned**: max_ops 2, the end row has op_index 1 in the source
 (`advance_pc 1`); the converted program ends the sequence right after the row: op_index 0. -/
